@@ -292,7 +292,9 @@ func VerifH_C09_table() {
 	}
 	verifMapOrder(true)
 	enc := t.Encode()
+	again := t.Encode()
 	verifMapOrder(false)
+	verifAssert(verifSame(enc, again), "encoding the same table twice gives the same bytes (independent of map iteration order)")
 	verifAssert(w16(enc, 0) == 0 && int(w16(enc, 2)) == len(t), "header")
 	for i := 1; i < len(t); i++ {
 		a, b := 4+8*(i-1), 4+8*i
